@@ -10,7 +10,7 @@ use pdatastructs::filters::Filter;
 use serde_json::json;
 use std::sync::Mutex;
 
-pub const RULE: &str = "(a) usability over the (n,p) plane n in {1,2,3,10,50,1e3,1e5} x p in {1e-9,1e-6,1e-3,0.02,0.1,0.3,0.5,0.51,0.75,0.9,0.999} for BloomFilter::with_properties and CuckooFilter::with_properties_4/_8 (default and harness hashers): k>=1, m>=1, n distinct inserts (cuckoo: no Full), query/len/is_empty/union/clear do not panic - also with debug assertions on; (b) false-positive frequencies over independent Mix/SipHash seeds and disjoint probe sets with the upper-bounded-rate rule (violated iff mean - 5*SE > bound in two independent stages): Bloom <= 1.3p for n >= 50, cuckoo <= p (incl. p = 1e-9..1e-12, fingerprints of 31..44 bits), quotient filter holding m elements <= m*2^-(q+r) (incl. q+r = 50..64); (c) Bloom len() within max(5*sigma_est+2, 0.05n) of the number of distinct inserts while at most half the bits are set; on every fourth seed a third of the elements arrives through union(). non-trivial = (cell, seed) execution with >= 1 probe answered; distinct = (cell, seed) pairs + usability configurations";
+pub const RULE: &str = "(a) usability over the (n,p) plane n in {1,2,3,10,50,1e3,1e5} x p in {1e-9,1e-6,1e-3,0.02,0.1,0.3,0.5,0.51,0.75,0.9,0.999} for BloomFilter::with_properties and CuckooFilter::with_properties_4/_8 (default and harness hashers): k>=1, m>=1, n distinct inserts (cuckoo: no Full), query/len/is_empty/union/clear do not panic - also with debug assertions on; (b) false-positive frequencies over independent Mix/SipHash seeds and disjoint probe sets with the upper-bounded-rate rule (violated iff mean - 5*SE > bound in two independent stages): Bloom <= 1.3p for n >= 50, cuckoo <= p (incl. p = 1e-9..1e-12, fingerprints of 31..44 bits), quotient filter holding m elements <= m*2^-(q+r) (incl. q+r = 50..64); (c) Bloom len() within max(5*sigma_est+2, 0.05n) of the number of distinct inserts while at most half the bits are set; on every fourth seed a third of the elements arrives through union(), on another fourth the filter is reused after n other inserts and clear(). non-trivial = (cell, seed) execution with >= 1 probe answered; distinct = (cell, seed) pairs + usability configurations";
 pub const ASSUMPTIONS: &[&str] = &[
     "cuckoo usability is scoped to p >= 2*bucketsize*2^-64, below which no 64-bit fingerprint can exist",
     "probe keys are disjoint from inserted keys by construction (different key ranges before hashing)",
@@ -168,6 +168,14 @@ fn one_seed(cell: &Cell, mode: HMode, seed: u64, probes: usize) -> SeedResult {
     match cell {
         Cell::Bloom { n, p } => {
             let mut f = B::with_properties_and_hash(*n, *p, bh);
+            if seed & 3 == 2 {
+                // every fourth seed: a reused filter - n other elements first, then clear() (seventh round:
+                // the rate and the len() estimate of a cleared filter are those of a fresh one)
+                for i in 0..*n as u64 {
+                    let _ = f.insert(&((1u64 << 41) + i));
+                }
+                f.clear();
+            }
             if seed & 3 == 1 {
                 // every fourth seed: the middle third of the elements arrives through union()
                 // (documented as equivalent to inserting them)
